@@ -1,4 +1,5 @@
 import Woodpile.Driver.Util
+import Woodpile.Driver.Unwind
 import Woodpile.Model.ReadN
 import Woodpile.Gen.Consts
 
@@ -44,6 +45,7 @@ def step (s : St) : List String → St × List String
     | _, _, _, _ => (s, ["bad-op"])
   | _ => (s, ["bad-op"])
 
-def family : Family := { σ := St, init := ⟨⟨none⟩, 0⟩, step := step }
+/-- every op of this family is panic-free: all may be wrapped in `unwinding` (`Driver/Unwind.lean`) -/
+def family : Family := withUnwind { σ := St, init := ⟨⟨none⟩, 0⟩, step := step } (fun _ _ => true)
 
 end Woodpile.Driver.ReadNFam
